@@ -333,6 +333,17 @@ func (r *Raft) restore() error {
 		r.lastIncludedTerm = metadata.LastIncludedTerm
 		r.commitIndex = metadata.LastIncludedIndex
 		r.lastApplied = metadata.LastIncludedIndex
+
+		// The log must reach the snapshot and agree with it. It may not if this node
+		// stopped after a received snapshot became visible but before its log was
+		// trimmed - finish that installation by discarding the log.
+		if entry, _ := r.log.GetEntry(metadata.LastIncludedIndex); r.log.LastIndex() < metadata.LastIncludedIndex ||
+			(entry != nil && entry.Term != metadata.LastIncludedTerm) {
+			if err := r.log.DiscardEntries(metadata.LastIncludedIndex, metadata.LastIncludedTerm); err != nil {
+				return fmt.Errorf("could not discard log: %w", err)
+			}
+		}
+
 		if err := r.fsm.Restore(file); err != nil {
 			return fmt.Errorf("could not restore state machine with snapshot: %w", err)
 		}
